@@ -35,7 +35,7 @@ def main(argv=None):
     env = dict(os.environ)
     env["PYTHONHASHSEED"] = env.get("PYTHONHASHSEED", "0")
     env["PYTHONPATH"] = core.VERIF + os.pathsep + env.get("PYTHONPATH", "")
-    env["MF_GATED"] = ",".join(gated)
+    env["MF_GATED"] = ",".join(findings.all_gates())
     env[core.GUARD] = "1"
     env.setdefault("PYTHONDONTWRITEBYTECODE", "1")
 
@@ -77,7 +77,10 @@ def main(argv=None):
     known_lines = []
     if gated:
         core.setup_env()
-        repro = getattr(mod, "KNOWN", {})
+        from . import known as known_mod
+
+        repro = dict(known_mod.REPRO)
+        repro.update(getattr(mod, "KNOWN", {}))
         for key in gated:
             entry = known[key]
             fn = repro.get(key)
@@ -114,7 +117,7 @@ def main(argv=None):
 
     wall = time.time() - t0
     if not a.no_evidence:
-        write_evidence(mod, prop, a.tier, seed, res, gated, wall, nshards)
+        write_evidence(mod, prop, a.tier, seed, res, findings.all_gates(), wall, nshards)
     shutil.rmtree(rundir, ignore_errors=True)
     try:
         os.rmdir(os.path.join(core.VERIF, ".run"))
